@@ -11,7 +11,11 @@ def check_one(hyps, goal, axioms, timeout_ms, want_model=False, seed=0):
     only a safety net five times as long - so a verdict does not depend on how busy the machine is"""
     s = Solver(); s.set('rlimit', int(timeout_ms * RL_PER_MS)); s.set('timeout', int(timeout_ms * 5))
     if seed: s.set('random_seed', seed)
-    s.add(*axioms); s.add(*hyps); s.add(Not(goal))
+    seen = set(); uniq = []
+    for f in list(axioms) + list(hyps):          # the same clause often reaches a query several times (an invariant over fields no call has changed): one copy is enough
+        k = f.get_id() if hasattr(f, 'get_id') else id(f)
+        if k not in seen: seen.add(k); uniq.append(f)
+    s.add(*uniq); s.add(Not(goal))
     t0 = time.time()
     r = s.check()
     dt = time.time() - t0
@@ -59,13 +63,15 @@ def discharge(obs, axioms, timeout_ms=10000, shard=None, use_cvc5=True, cover=Fa
             else:
                 a['proved'] += 1; a['backends']['z3api-cover'] = a['backends'].get('z3api-cover', 0) + 1
             continue
-        # `unknown` is usually a heuristic miss, not a property of the formula: the same query is often decided in milliseconds under another seed
-        # (instantiation order).  So: several SHORT attempts under different seeds first, then the full budget, then larger ones.
-        short = max(2000, timeout_ms // 5)
-        plan = [(short, 0), (short, 7919), (short, 104729), (timeout_ms, 1299709)] + [(timeout_ms * (2 if k == 0 else 4), 15485863 + k) for k in range(retries)]
+        # `unknown` is usually a heuristic miss, not a property of the formula: whether e-matching finds the proof or wanders off is decided early and depends on the
+        # instantiation order (seed, term numbering); measured on the hard queries of this project an attempt either succeeds within about a second or runs into any
+        # budget, with roughly even odds.  So (restart strategy): many VERY short attempts under different seeds first, then longer ones, then the full budget and beyond.
+        tiny = min(1500, timeout_ms); short = max(2000, timeout_ms // 5)
+        plan = [(tiny, sd) for sd in (0, 7919, 104729, 1299709, 15485863, 32452843)] + [(short, 49979687), (short, 67867967), (timeout_ms, 86028121)] + \
+               [(timeout_ms * (2 if k == 0 else 4), 982451653 + k) for k in range(retries)]
         r = 'unknown'
         for n_att, (budget, sd) in enumerate(plan):
-            if n_att > 0 and lost_s > 12 * timeout_ms / 1000: break
+            if n_att >= 6 and lost_s > 12 * timeout_ms / 1000: break          # a unit that has clearly lost obligations already: only the very short attempts for the rest
             r, be, dt, info, solver = check_one(hyps, goal, axioms, budget, want_model=True, seed=sd)
             a['secs'] += dt
             if n_att > 0: a['retries'] = a.get('retries', 0) + 1
